@@ -182,3 +182,14 @@ def patterns(names):
     base = [st.sampled_from(names)] if names else []
     glob = st.sampled_from(["*", "A*", "t1*", "t?", "?", "[AB]*", "*_*", "nomatch*", "t1", "B_?", "[!A]*", "*1"])
     return st.lists(st.one_of(*base, glob), min_size=1, max_size=3)
+
+
+@st.composite
+def invoke(draw, objs=True, links=True):
+    """How the gwf commands of a case are invoked (project.Project(invoke=...)); None = from the project root
+    with a plain workflow.py defining `gwf`."""
+    if draw(st.integers(0, 2)) == 0:
+        return None
+    return {"plan": draw(st.lists(st.sampled_from([0, 0, 1, 2]), min_size=1, max_size=4)),
+            "obj": draw(st.sampled_from([None, None, "analysis"])) if objs else None,
+            "wf_link": draw(st.sampled_from([False, False, True])) if links else False}
